@@ -9,6 +9,9 @@ from ..engines.b_builders import Actor, BuilderSim, CfgCtl, CondCtl, Discard, T
 PROP = "C13"
 NONTRIVIAL_STEPS = 2
 
+# fault kinds whose request can be made a second time unchanged (nothing of the first attempt is consumed)
+SAME_AGAIN = ("function-outputs-differ", "exit-type-mismatch", "case-index-out-of-range", "case-built-twice",
+              "call-non-function", "untracked-index", "int-wire-untracked-builder")
 KINDS = ["no-sibling-ancestor", "outside-cfg", "case-outputs-disagree", "case-index-out-of-range", "case-built-twice",
          "conditional-exit-unbuilt", "exit-type-mismatch", "function-outputs-differ", "poly-no-instantiation",
          "poly-wrong-arg-count", "call-non-function", "non-dataflow-wire", "int-wire-untracked-builder",
@@ -366,6 +369,20 @@ def run(ctx):
             ctx.violate("accepted", kind, {"call": desc, "actor": getattr(a, "kind", type(a).__name__)})
         elif expected is not None and not any(x in mro for x in expected):
             ctx.violate("wrong-exception", f"{kind}:{outcome}", {"call": desc, "expected": expected})
+        if not ctx.violations and outcome != "returned" and kind in SAME_AGAIN and ch.coin(1, 3, "same-request-again"):
+            # the caller catches the error and makes the very same inconsistent request once more: the inconsistency is
+            # still there, so it must be refused again (a refusal that records half of the request - a declared row
+            # overwritten, a cache filled - makes the second attempt acceptable)
+            ctx.fault("again:" + kind)
+            try:
+                fn()
+                out1 = "returned"
+            except Exception as e1:  # noqa: BLE001
+                out1 = type(e1).__name__
+            ctx.ev(a.id, "FAULT-AGAIN:" + kind, desc, out1, fault=kind)
+            ctx.checked("refuse-again")
+            if out1 == "returned":
+                ctx.violate("accepted", f"{kind}:second-attempt", {"call": desc, "first": outcome})
         if not ctx.violations and outcome != "returned" and kind in ("no-sibling-ancestor", "outside-cfg") and desc.startswith(("add_op(", "add(", "add_nested(")) and ch.coin(1, 3, "complete-the-program-after"):
             # the refused call left an operation without its inputs behind (only the add_op / add / add_nested carriers:
             # insert_* leaves a finished container behind, set_indexed_outputs nothing); the caller catches the error and finishes
